@@ -1991,7 +1991,7 @@ static void DecodeBitCF(Word Code) {
                     OK     = True;
                 } else {
                     BitPos = EvalStrIntExpression(
-                            &ArgStr[1], (OpSize == 0) ? UInt3 : Int4, &OK);
+                            &ArgStr[1], (OpSize == 0) ? UInt3 : UInt4, &OK);
                 }
                 if (OK) {
                     switch (AdrType) {
@@ -2045,7 +2045,7 @@ static void DecodeBit(Word Code) {
                 WrError(ErrNum_InvOpSize);
             } else {
                 BitPos = EvalStrIntExpression(
-                        &ArgStr[1], (OpSize == 0) ? UInt3 : Int4, &OK);
+                        &ArgStr[1], (OpSize == 0) ? UInt3 : UInt4, &OK);
                 if (OK) {
                     switch (AdrType) {
                     case ModReg:
